@@ -8,10 +8,12 @@ E2: every reconfiguration sequence of one loss object of length <= 3 over (data 
 Plus: direct construction (constructor / setters, reference-side model closures), a smooth non-affine model for the
 generic classes (exercises the second Hessian term), and the quara.math.entropy primitives on all small tables.
 """
+import itertools
+
 import numpy as np
 
 from mc import alphabet as A, refmodel as R
-from mc.core import Out, inner
+from mc.core import Out, inner, HarnessError
 from mc.props import _c12_ref as X
 
 ID = "C12"
@@ -35,9 +37,11 @@ ASSUMPTIONS = [
 BOUNDS = {
     "quick": "1 qubit; qst/povmt/qpt outcome counts 2..5, qmpt (mprocess x povm outcomes) (2,1),(3,1),(2,2) and (5,1) with the N=1 "
              "tables only, x both flags; tables: all N<=3 compositions + exact/rounded data at n=1e2,1e5; direct construction on "
-             "every third table; E2 sequences length <= 3 over 2 data sets x all modes on 5 set-ups",
+             "every third table; E2 sequences length <= 3 over 2 data sets x all modes on 5 set-ups; all sequences of length 3 over "
+             "{value, gradient at 2 points through one in-place overwritten argument array, new data set, switch of the tomography} "
+             "x 4 classes x {identity, custom} x 4 set-ups",
     "thorough": "adds qmpt (4,1),(2,3),(3,2),(5,1) with all tables, direct construction on every table, Richardson Hessians at "
-                "every selected point, E2 on 8 set-ups, qutrit qst m=3,4 / povmt m=3 / qpt m=2 (reduced tables)",
+                "every selected point, E2 on 8 set-ups, argument-array / switch sequences of length 4 on 6 set-ups, qutrit qst m=3,4 / povmt m=3 / qpt m=2 (reduced tables)",
 }
 EXHAUSTIVE = {"quick": True, "thorough": True}
 CASE_TIMEOUT = 900
@@ -619,6 +623,11 @@ def ex_e2(p, seed):
                     raised_before = True
                 elif mode != "identity":
                     weighted_before = True
+                if ok2:
+                    # the intermediate configuration is USED (lazily built tables get built) before the next one replaces it
+                    A.call(L.value, su.v_true.copy())
+                    A.call(L.gradient, su.v_true.copy())
+                    out.ops += 2
         if last is None or last[0] == "rejected":
             out.count("e2_option_rejected")
             continue
@@ -640,6 +649,112 @@ def ex_e2(p, seed):
     inner(out, max(nseq - 1, 0))
     out.states = nseq
     out.outcome = "%s:%s" % (cls, "ok" if not out.fails else "fail")
+    return out
+
+
+# ================================================================== E2b: shared argument buffers, data / model switches
+
+AL_OPS = ["v0", "v1", "g0", "g1", "nd", "sw"]
+AL_LEN = {"quick": 3, "thorough": 4}
+
+
+def ex_alias(p, seed):
+    """every sequence over {value / gradient at two points THROUGH ONE CALLER-OWNED ARRAY that is overwritten in place,
+    new data set (set_prob_dists_q), switch to another tomography of the same shape (full configuration)} on one loss
+    object; after every step the result is compared with the same call on a freshly built and freshly configured object
+    given a fresh array (that route is judged against the defining formulas by the other families)."""
+    out = Out()
+    cls, mode = p["cls"], p["mode"]
+    sus = [X.setup(p["typ"], p["flag"], p["mm"], p["mp"], seed, "Q1"), X.setup(p["typ"], p["flag"], p["mm"], p["mp"], seed + 1, "Q1")]
+    n = sus[0].n
+    if sus[1].n != n or sus[1].S != sus[0].S or sus[1].m != sus[0].m:
+        raise HarnessError("alias: the two set-ups differ in shape")
+    if np.abs(sus[0].A - sus[1].A).max() < 1e-3:
+        raise HarnessError("alias: the two set-ups have the same forward model")
+    F = sus[0].F
+    base = [F.var_from_stacked(b[1], p["flag"]) for b in sus[0].base]
+    P = [0.8 * base[0] + 0.2 * base[1], 0.3 * base[0] + 0.7 * base[-1]]
+    datas = {(k, j): X.dataset(sus[k], did) for k in (0, 1) for j, did in enumerate(("counts:100", "tab:2:1"))}
+    tail = "%s:mode=%s:%s:%s" % (cls, modeclass(mode), mclass(sus[0].m), p["typ"])
+
+    def new_loss(k, j):
+        L = lib()[cls][0]()
+        ok, opt, w = make_option(cls, mode, sus[0])       # the same option (and custom weights) for both tomographies
+        if not ok:
+            return None, None
+        ok2, e = configure(L, cls, sus[k], opt, datas[(k, j)])
+        return (L, opt) if ok2 else (None, None)
+
+    REF = {}
+
+    def ref(k, j, op):
+        key = (k, j, op)
+        if key not in REF:
+            L, _ = new_loss(k, j)
+            f = L.value if op[0] == "v" else L.gradient
+            REF[key] = np.array(f(P[int(op[1])].copy()), dtype=float)
+        return REF[key]
+
+    if new_loss(0, 0)[0] is None:
+        out.count("alias_configuration_rejected")
+        out.outcome = "alias:skipped"
+        return out
+    nseq = 0
+    depth = AL_LEN[p.get("tier", "quick")]
+    reported = set()
+    for seq in itertools.product(range(len(AL_OPS)), repeat=depth):
+        L, opt = new_loss(0, 0)
+        k, j = 0, 0
+        buf = np.zeros(n)
+        nseq += 1
+        hist = []
+        for oi in seq:
+            op = AL_OPS[oi]
+            hist.append(op)
+            out.transitions += 1
+            if op == "nd":
+                j = 1 - j
+                ok, e = A.call(L.set_prob_dists_q, [np.array(q, dtype=np.float64) for _, q in datas[(k, j)]])
+                if not ok:
+                    out.fail("alias:set_prob_dists_q-raises:" + tail, "history %s: %s" % (hist, A.fmt_exc(e)))
+                    break
+                if mode.startswith("inverse"):
+                    break       # the weights of these modes belong to the data set that configured them
+                continue
+            if op == "sw":
+                k = 1 - k
+                ok, e = configure(L, cls, sus[k], opt, datas[(k, j)])
+                if not ok:
+                    out.fail("alias:reconfigure-raises:" + tail, "history %s: %s" % (hist, A.fmt_exc(e)))
+                    break
+                continue
+            buf[:] = P[int(op[1])]
+            ok, r = A.call(L.value if op[0] == "v" else L.gradient, buf)
+            out.ops += 1
+            if not ok:
+                out.fail("alias:%s-raises:%s" % ("value" if op[0] == "v" else "gradient", tail), "history %s: %s" % (hist, A.fmt_exc(r)))
+                break
+            r = np.array(r, dtype=float)
+            want = ref(k, j, op)
+            out.traces += 1
+            if r.shape != want.shape or np.abs(r - want).max() > TOL * (1.0 + np.abs(want).max()):
+                prev = [h for h in hist[:-1]]
+                cause = ("after-model-switch" if "sw" in prev else "after-new-data" if "nd" in prev else
+                         "argument-array-overwritten-in-place" if any(h[0] in "vg" for h in prev) else "first-call")
+                sig = "alias:%s-differs-from-fresh-object:%s:%s" % ("value" if op[0] == "v" else "gradient", cause, tail)
+                if sig not in reported:
+                    reported.add(sig)
+                    out.fail(sig, "history %s on one loss object with one argument array: %r, a fresh object given a fresh array returns %r" % (
+                        hist, r.tolist(), want.tolist()))
+                break
+            if not np.array_equal(buf, P[int(op[1])]):
+                out.fail("alias:argument-modified:" + tail, "history %s: the argument array was changed by the call" % hist)
+                break
+    out.states = nseq
+    inner(out, max(nseq - 1, 0))
+    out.count("alias_sequences", nseq)
+    out.count("alias:%s:%s" % (cls, modeclass(mode)))
+    out.outcome = "alias:%s:%s" % (cls, "ok" if not out.fails else "fail")
     return out
 
 
@@ -852,11 +967,17 @@ def families(tier, seed):
             for first in range(len(e2_alphabet("se" if is_se(cls) else "re"))):
                 e2.append({"typ": typ, "flag": flag, "mm": mm, "mp": mp, "cls": cls, "first": first})
     nl = [{"S": 2, "m": m, "n": 3} for m in (2, 3, 4)] + ([{"S": 3, "m": 5, "n": 4}] if tier == "thorough" else [])
-    return [("math", [{"m": m} for m in (2, 3, 4, 5)]), ("nonlinear", nl), ("reconfigure", e2), ("losses", e1)]
+    al = []
+    for typ, flag, mm, mp in [("qst", True, None, 2), ("qst", False, None, 3), ("povmt", True, None, 3), ("qpt", False, None, 2)] + (
+            [("qmpt", True, 2, 2), ("povmt", False, None, 2)] if tier == "thorough" else []):
+        for cls in ("se", "fast_se", "re", "fast_re"):
+            for mode in ("identity", "custom:A"):
+                al.append({"typ": typ, "flag": flag, "mm": mm, "mp": mp, "cls": cls, "mode": mode, "tier": tier})
+    return [("math", [{"m": m} for m in (2, 3, 4, 5)]), ("nonlinear", nl), ("reconfigure", e2), ("alias", al), ("losses", e1)]
 
 
 def execute(family, params, seed):
-    return {"math": ex_math, "nonlinear": ex_nonlinear, "reconfigure": ex_e2, "losses": ex_e1}[family](params, seed)
+    return {"math": ex_math, "nonlinear": ex_nonlinear, "reconfigure": ex_e2, "alias": ex_alias, "losses": ex_e1}[family](params, seed)
 
 
 def guards(summary):
@@ -874,7 +995,7 @@ def guards(summary):
         need("outcomes:%d" % m)
     for k in ("tables_with_zero_entries", "re_pts_inside", "re_pts_outside", "nonzero_residual", "richardson_gradients",
               "richardson_hessians", "nl_second_hessian_term_nonzero", "math_q_zero_entries", "e2_len3", "fast_vs_generic",
-              "fast_vs_generic_weighted", "pearson_ok:m=2"):
+              "fast_vs_generic_weighted", "pearson_ok:m=2", "alias_sequences"):
         need(k)
     if info.get("grid_without_both_sides", 0) > 0:
         g.append("an entropy grid has no point inside or no point outside the physical set")
